@@ -90,10 +90,23 @@ Definition S_ord_measure_decreases : Prop :=
   forall (k : ocfg) (s s' : ost) (l : olabel),
   ostep k s l = Some s' -> (omeasure s' < omeasure s)%nat.
 
-(** no deadlock when the global pool has a thread that is not the blocked caller *)
+(** no deadlock, for the code as it is now: for every kind of caller -- external thread,
+    worker of the global pool, worker of a custom pool of any size -- every size >= 1 of
+    the global pool, every number >= 1 of consumers and every input, a reachable state that
+    is not final has a transition.  (A worker of a pool of size 1 takes the sequential
+    branch; a worker of the global pool of size >= 2 leaves a free global worker; the
+    others are not global workers.) *)
 Definition S_ord_progress : Prop :=
   forall (k : ocfg) (items : list N) (s : ost),
-  o_has_free_worker k = true -> (1 <= o_tasks k)%nat ->
+  o_fixed k = true -> (1 <= o_gworkers k)%nat -> (1 <= o_tasks k)%nat ->
+  oreachable k items s -> ofinal s = false ->
+  exists l s', ostep k s l = Some s'.
+
+(** the rule before the repair: no deadlock when the global pool has a thread that is not
+    the blocked caller *)
+Definition S_ord_progress_prefix : Prop :=
+  forall (k : ocfg) (items : list N) (s : ost),
+  o_fixed k = false -> o_has_free_worker k = true -> (1 <= o_tasks k)%nat ->
   oreachable k items s -> ofinal s = false ->
   exists l s', ostep k s l = Some s'.
 
@@ -102,24 +115,24 @@ Definition S_ord_stuck_spec : Prop :=
   oreachable k items s ->
   (ostuck k s = true <-> forall l, ostep k s l = None).
 
-(** the property FAILS for the ordered variant when the caller is the only thread of the
-    global pool: a reachable, non-final state without any transition (here for the empty
-    input, and for 5 items) *)
+(** BEFORE THE REPAIR ([o_fixed k = false]) the property FAILED for the ordered variant when
+    the caller was the only thread of the global pool: a reachable, non-final state without
+    any transition *)
 Definition S_ord_deadlock_refuted : Prop :=
   exists (k : ocfg) (items : list N) (s : ost),
-    o_caller_in_g k = true /\ o_gworkers k = 1%nat /\ (1 <= o_tasks k)%nat
+    o_fixed k = false /\ o_caller k = OGlobalWorker /\ o_gworkers k = 1%nat /\ (1 <= o_tasks k)%nat
     /\ oreachable k items s /\ ofinal s = false /\ (forall l, ostep k s l = None).
 
-(** ... and it fails for EVERY input and every number of consumers: no execution from the
-    initial state ever reaches a final state (since executions are finite, each of them
-    ends in a deadlock) *)
+(** ... and it failed for EVERY input and every number of consumers: no execution from the
+    initial state ever reached a final state (since executions are finite, each of them
+    ended in a deadlock) *)
 Definition S_ord_deadlock_all : Prop :=
   forall (k : ocfg) (items : list N) (s : ost),
-  o_caller_in_g k = true -> o_gworkers k = 1%nat -> (1 <= o_tasks k)%nat ->
+  o_fixed k = false -> o_caller k = OGlobalWorker -> o_gworkers k = 1%nat -> (1 <= o_tasks k)%nat ->
   oreachable k items s -> ofinal s = false.
 
 (** every final reachable state has drained a permutation of the input, hence (with
-    [S_ord_value]) the value is the in-order fold *)
+    [S_ord_value]) the value is the in-order fold; both rules, both branches *)
 Definition S_ord_machine_value : Prop :=
   forall (R A : Type) (f : N -> R) (fold : A -> R -> A) (init : A)
          (k : ocfg) (len : nat) (s : ost),
@@ -127,17 +140,36 @@ Definition S_ord_machine_value : Prop :=
   oreachable k (nseq 0 len) s -> ofinal s = true ->
   ord_value f fold init (lrev (o_arr s)) = fold_left fold (map f (nseq 0 len)) init.
 
-(** on the executable runner: under every schedule, with a free global worker the run
-    terminates with the in-order fold; with the caller as the only global thread it
-    deadlocks *)
+(** on the executable runner, the code as it is now: for every kind of caller, every size
+    >= 1 of the global pool, every size hint, every length and every schedule the run
+    terminates with the in-order fold *)
 Definition S_ord_run_total : Prop :=
   forall (R A : Type) (f : N -> R) (fold : A -> R -> A) (init : A)
-         (cw gw : nat) (hint : option nat) (in_g : bool) (len : nat) (sched : list nat),
-  (if in_g then 2 <= gw else 1 <= gw)%nat ->
+         (gw : nat) (caller : ocaller) (hint : option nat) (len : nat) (sched : list nat),
+  (1 <= gw)%nat ->
   exists arr,
-    pmf_ord_run cw gw hint in_g len sched = OTerminated arr
+    pmf_ord_run gw caller hint len sched = OTerminated arr
+    /\ ord_value f fold init arr = fold_left fold (map f (nseq 0 len)) init.
+
+(** the sequential branch (caller a worker of a pool of size 1, global or custom): [fold]
+    is applied to the images of the items in the order of the iterator, whatever the size
+    of the global pool (0 included: no task is spawned) *)
+Definition S_ord_run_seq : Prop :=
+  forall (gw : nat) (caller : ocaller) (hint : option nat) (len : nat) (sched : list nat),
+  caller_pool gw caller = Some 1%nat ->
+  pmf_ord_run gw caller hint len sched = OTerminated (nseq 0 len).
+
+(** the rule before the repair: termination with the in-order fold when the global pool has
+    a thread that is not the blocked caller; a deadlock, for every size hint, length and
+    schedule, when the caller is the only thread of the global pool *)
+Definition S_ord_run_total_prefix : Prop :=
+  forall (R A : Type) (f : N -> R) (fold : A -> R -> A) (init : A)
+         (gw : nat) (caller : ocaller) (hint : option nat) (len : nat) (sched : list nat),
+  (match caller with OGlobalWorker => 2 <= gw | _ => 1 <= gw end)%nat ->
+  exists arr,
+    pmf_ord_run_prefix gw caller hint len sched = OTerminated arr
     /\ ord_value f fold init arr = fold_left fold (map f (nseq 0 len)) init.
 
 Definition S_ord_run_deadlock : Prop :=
-  forall (cw : nat) (hint : option nat) (len : nat) (sched : list nat),
-  pmf_ord_run cw 1 hint true len sched = ODeadlock.
+  forall (hint : option nat) (len : nat) (sched : list nat),
+  pmf_ord_run_prefix 1 OGlobalWorker hint len sched = ODeadlock.
